@@ -68,7 +68,8 @@ PROPS = {
         "level": "exploration",
         "tests": [
             T("TestC10Remerge", "fleet", 800, 96000, shards=16, qshards=4),
-            T("TestC10Loop", "fleet", 120, 12000, shards=16, qshards=4, procs=4),
+            T("TestC10Loop", "fleet", 240, 12000, shards=16, qshards=4, procs=4),
+            T("TestC10Swept", "fleet", 3000, 960000, shards=16, qshards=2),
         ],
         "assumptions": [
             "part A (direct driver): re-merging merged content commits nothing; part B (real loops under the scheduler): uploads are counted in a write-free phase of 2N+2 rounds",
@@ -97,7 +98,7 @@ PROPS = {
         "tests": [
             T("TestC05Enum", "fleet", 1, 1, enum=True, qshards=8, shards=8, procs=4),
             T("TestC05CleanerEnum", "fleet", 1, 1, enum=True, qshards=4, shards=8, procs=4),
-            T("TestC05Bucket", "fleet", 200, 24000, shards=16, qshards=8, procs=4),
+            T("TestC05Bucket", "fleet", 400, 24000, shards=16, qshards=8, procs=4),
         ],
         "assumptions": [
             "a crash is modelled as the loss of all in-memory state at a yield point (between two LMDB transactions); fsync/power-loss durability and real object-store anomalies are out of reach",
@@ -189,6 +190,8 @@ PROPS = {
         "tests": [
             T("TestC14Build", "codec", 30000, 12000000, shards=8),
             T("TestC14Parse", "codec", 60000, 24000000, shards=8),
+            T("TestC14Loop", "fleet", 150, 16000, shards=16, qshards=4, procs=4),
+            T("TestC14LoopEnum", "fleet", 1, 1, enum=True, qshards=4, shards=8, procs=4),
             # invariant part: every value Lightning Stream writes is re-read with the independent reader
             # inside these harnesses (shadow captures/merges/projections, native merges, all format versions)
             T("TestC11Mirror", "kv", 1500, 160000, shards=16),
@@ -203,14 +206,16 @@ PROPS = {
     "C16": {
         "level": "exploration",
         "tests": [
-            T("TestC16Receiver", "recv", 160, 16000, shards=16, qshards=4, procs=4),
+            T("TestC16Receiver", "recv", 320, 16000, shards=16, qshards=4, procs=4),
             T("TestC16RunOnce", "fleet", 150, 16000, shards=16, qshards=4, procs=4),
+            T("TestC16Pauses", "recv", 1, 1, enum=True, qshards=8, shards=8, procs=4),
         ],
         "assumptions": [
             "'eventually delivered' is decided in bounded form: with faults off, a frozen bucket and a draining consumer every other instance's newest decodable snapshot must arrive within 10 s of polling at 1 ms intervals; if the process itself was starved of CPU (heartbeat goroutine) the case is inconclusive, not a violation",
             "the memory limits are observed through the lightningstream_climit_active gauges; the gauge is decremented just after the token is returned, so only an overshoot that persists over 4 samples counts",
             "own-instance snapshots exist only before start-up (a running instance publishes its own snapshots itself)",
             "run-once mode (program ends by itself after merging the start-up snapshots) is checked with the scheduler harness in the fleet package",
+            "relative speeds: besides the Go scheduler's own interleavings, the goroutine that writes a given log line (receiver, downloaders, token pools) is held up for 0.3-6 ms at generated / enumerated occurrences (a logrus hook on the logger handed to the receiver); places without a log statement or yield point cannot be stretched",
         ],
     },
     "C17": {
